@@ -455,11 +455,17 @@ def oracle(ctx, R, units, case):
         if rt is not None and rt.done() and not rt.cancelled() and rt.exception() is None:
             body = rt.result()
             toks = set(body.split(b";")[:-1]) if body else set()
-            if body and (toks - {b"%d" % u}) and not body.startswith(b"%d;" % u):
-                viol.append(("C06/stale-bytes/mixed-body", f"body of response {j} (unit {u}) holds foreign bytes: {body[:40]!r}"))
-            if un["end"] > un["start"] + un["head"] and body:
-                body_tags = tags(c, un["start"] + un["head"], un["end"])
-                bad += [t for t in body_tags if t != j]
+            if un.get("open"):
+                # body delimited by connection close: everything the peer sent until then is this body
+                if body:
+                    bad += [t for t in tags(c, un["start"] + un["head"], off.get(c, 0) + 1) if t != j]
+            else:
+                exp = (b"%d;" % u) * (len(body) // len(b"%d;" % u) + 1)
+                if body and body != exp[:len(body)]:
+                    viol.append(("C06/stale-bytes/mixed-body", f"response {j} body (unit {u}) holds foreign bytes: {body[:40]!r}"))
+                if un["end"] > un["start"] + un["head"] and body:
+                    body_tags = tags(c, un["start"] + un["head"], un["end"])
+                    bad += [t for t in body_tags if t != j]
         if bad:
             t = bad[0]
             if t is None:
@@ -601,8 +607,8 @@ def evaluate(ctx, R, units, variants, cfg, where, sample=False):
 
 def check(ctx):
     rng = ctx.rng
-    n_same = 2400 if ctx.quick else 60000
-    n_keys = 500 if ctx.quick else 10000
+    n_same = 1800 if ctx.quick else 60000
+    n_keys = 400 if ctx.quick else 10000
     jobs = []
     for i in range(n_same + n_keys):
         cfg = cfg_draw(rng)
